@@ -384,15 +384,11 @@ func (c *Cache) GnmiUpdate(n *pb.Notification) error {
 // each individual Update/Delete is sent to cache as
 // a separate gnmi.Notification.
 func (t *Target) GnmiUpdate(n *pb.Notification) error {
-	updateTS := false
-	if u := n.GetUpdate(); len(u) > 0 {
-		if p := u[0].GetPath().GetElem(); len(p) > 0 && p[0].GetName() != metadata.Root {
-			// Record latest timestamp from the device, excluding all 'meta' paths.
-			defer func(ts int64) {
-				if updateTS {
-					t.checkTimestamp(T(ts))
-				}
-			}(n.GetTimestamp())
+	// Record latest timestamp from the device as soon as an update is accepted,
+	// excluding all 'meta' paths.
+	recordTS := func(u *pb.Update) {
+		if p := joinPrefixAndPath(n.GetPrefix(), u.GetPath()); len(p) > 0 && p[0] != metadata.Root {
+			t.checkTimestamp(T(n.GetTimestamp()))
 		}
 	}
 	switch {
@@ -410,7 +406,7 @@ func (t *Target) GnmiUpdate(n *pb.Notification) error {
 		if err != nil {
 			return err
 		}
-		updateTS = true
+		recordTS(n.GetUpdate()[0])
 		if nd != nil {
 			t.meta.AddInt(metadata.UpdateCount, int64(l))
 			t.client(nd)
@@ -435,7 +431,7 @@ func (t *Target) GnmiUpdate(n *pb.Notification) error {
 				errs.Add(err)
 				continue
 			}
-			updateTS = true
+			recordTS(u)
 			if nd != nil {
 				t.meta.AddInt(metadata.UpdateCount, 1)
 				t.client(nd)
@@ -459,7 +455,7 @@ func (t *Target) GnmiUpdate(n *pb.Notification) error {
 		if err != nil {
 			return err
 		}
-		updateTS = true
+		recordTS(n.GetUpdate()[0])
 		if nd != nil {
 			t.meta.AddInt(metadata.UpdateCount, 1)
 			t.client(nd)
